@@ -35,6 +35,8 @@ def lift(x):
         return z3.IntVal(int(x))
     if isinstance(x, int):
         return z3.IntVal(x)
+    if isinstance(x, z3.ArithRef):
+        return x
     return NotImplemented
 
 
@@ -308,6 +310,23 @@ class NLStr:
         for p in reversed(self.ps):
             r = z3.If(lift(p) >= lift(start), lift(p), r)
         return SymInt(r)
+
+    def __bool__(self):
+        return bool(self.symlen() > 0)
+
+    def __len__(self):
+        return int(self.symlen())
+
+    def split(self, sep=None, maxsplit=-1):
+        """Exactly len(ps) newlines: K+1 opaque pieces whose lengths follow from the newline positions."""
+        if sep != "\n" or maxsplit != -1:
+            raise EngineUnsupported("NLStr.split only models split('\\n')")
+        out, prev = [], z3.IntVal(-1)
+        for p in self.ps:
+            out.append(AbsStr(SymInt(lift(p) - prev - 1)))
+            prev = lift(p)
+        out.append(AbsStr(SymInt(lift(self.n) - prev - 1)))
+        return out
 
 
 # ---- builtins replacements to bind into module namespaces
